@@ -14,6 +14,7 @@ Per run:
 import concurrent.futures as cf
 import copy
 import os
+import re
 import time
 from collections import deque
 
@@ -223,33 +224,23 @@ def run(ctx, pid):
     broken = set(i for d in present for i in DEV_BREAKS[d])
     built_inv = [i for i in ALL_INV if i not in broken]
 
-    # ---- 2./3. TLC: intended model (all invariants), as-built model (graph), witnesses -- run side by side
+    # ---- 2./3. TLC jobs: as-built graphs first (the replay waits for them), then the rest; a few JVMs at a time
     cfgs = configs(pid, quick)
+    deadline = ctx.t0 + (48.0 if quick else 510.0)          # the replay stops early enough to finish around here
     jobs = {}
-    pool = cf.ThreadPoolExecutor(max_workers=6)
-    workers = 4 if quick else 8
+    pool = cf.ThreadPoolExecutor(max_workers=3)
+    workers = 4 if quick else 5
     for name, c in cfgs:
         cb = dict(c, Fixed=fixed_built)
         p = tlc.write_cfg(os.path.join(ctx.scratch, "built_%s.cfg" % name), constants=cb, invariants=built_inv, deadlock=False)
         jobs["built", name] = pool.submit(tlc.state_graph, "Hosts", p, ctx.scratch, coverage=(name == cfgs[0][0]),
                                           timeout=1500, workers=workers)
         time.sleep(0.02)                 # state_graph names its dump after the clock
-        if present:
-            ci = dict(c, Fixed=set(ALL_DEV))
-            p = tlc.write_cfg(os.path.join(ctx.scratch, "intended_%s.cfg" % name), constants=ci, invariants=ALL_INV, deadlock=False)
-            jobs["intended", name] = pool.submit(tlc.check_model, "Hosts", p, ctx.scratch, timeout=1500, workers=workers)
-    for name, c in intended_only(pid, quick):
-        ci = dict(c, Fixed=set(ALL_DEV))
-        p = tlc.write_cfg(os.path.join(ctx.scratch, "intended_%s.cfg" % name), constants=ci, invariants=ALL_INV, deadlock=False)
-        jobs["intended", name] = pool.submit(tlc.check_model, "Hosts", p, ctx.scratch, timeout=2400, workers=workers)
-    wc = dict(C({2}, {2}, events=2, env={"fail", "mode"}), Fixed=set(ALL_DEV))
-    p = tlc.write_cfg(os.path.join(ctx.scratch, "witness.cfg"), constants=wc, invariants=WITNESSES[pid], deadlock=False)
-    jobs["witness"] = pool.submit(tlc.run_tlc, "Hosts", p, ctx.scratch, timeout=900, workers=4, extra=["-continue"])
 
     # ---- 4a. meanwhile: record random runs of the real objects
     tconsts = dict(C({2, 3}, {2}, sessions={1, 2} if pid == "C25" and not quick else {1}, events=6,
                      env={"fail", "status", "mode", "topo", "auth", "ctl"}), Fixed=fixed_built)
-    n_tr = 150 if quick else 1500
+    n_tr = 150 if quick else 1000
     t0 = time.time()
     traces, after_bad = [], []
     for i in range(n_tr):
@@ -268,60 +259,57 @@ def run(ctx, pid):
     tcfg = tlc.write_cfg(os.path.join(ctx.scratch, "trace.cfg"), init="TraceInit", next="TraceNext", constants=tconsts,
                          invariants=built_inv, constraints=["Progress"], postcondition="Done", deadlock=False)
     jobs["trace"] = pool.submit(tlc.validate_traces, "Trace_Hosts", tcfg, traces + [bad1, bad2, bad3], ctx.scratch, timeout=2400)
+    wc = dict(C({2}, {2}, events=2, env={"fail", "mode"}), Fixed=set(ALL_DEV))
+    p = tlc.write_cfg(os.path.join(ctx.scratch, "witness.cfg"), constants=wc, invariants=WITNESSES[pid], deadlock=False)
+    jobs["witness"] = pool.submit(tlc.run_tlc, "Hosts", p, ctx.scratch, timeout=900, workers=2, extra=["-continue"])
+    if present:                          # otherwise the as-built model is the intended one
+        for name, c in cfgs:
+            ci = dict(c, Fixed=set(ALL_DEV))
+            p = tlc.write_cfg(os.path.join(ctx.scratch, "intended_%s.cfg" % name), constants=ci, invariants=ALL_INV, deadlock=False)
+            jobs["intended", name] = pool.submit(tlc.check_model, "Hosts", p, ctx.scratch, timeout=1500, workers=workers)
+    for name, c in intended_only(pid, quick):
+        ci = dict(c, Fixed=set(ALL_DEV))
+        p = tlc.write_cfg(os.path.join(ctx.scratch, "intended_%s.cfg" % name), constants=ci, invariants=ALL_INV, deadlock=False)
+        jobs["intended", name] = pool.submit(tlc.check_model, "Hosts", p, ctx.scratch, timeout=2400, workers=workers)
 
-    # ---- collect TLC results
     def spec_violation(res, label):
         own = "C45" if res.invariant in C45_INV else "C25"
         if own == pid or res.invariant not in ALL_INV:
             tr = res.trace()
             _viol(ctx, "TLC: %s violated on Hosts.tla (%s)" % (res.invariant, label),
-                          replay={"trace": [dict(s.get("act", {})) for _, s in tr]}, signature="spec:%s" % res.invariant)
+                  replay={"trace": [dict(s.get("act", {})) for _, s in tr]}, signature="spec:%s" % res.invariant)
 
-    graphs = {}
-    t0 = time.time()
-    for name, c in cfgs:
+    # ---- 3. spec -> code: replay walks covering the edges of every as-built graph, as the graphs arrive
+    replayed = steps = 0
+    timing["waiting_for_graphs_s"] = 0.0
+    timing["replay_s"] = 0.0
+    for gi, (name, c) in enumerate(cfgs):
+        t0 = time.time()
         res, nodes, edges, init = jobs["built", name].result()
+        timing["waiting_for_graphs_s"] = round(timing["waiting_for_graphs_s"] + time.time() - t0, 2)
         ctx.add_tlc(res, "as-built %s %s" % (name, _cs(c)))
         if res.violation:
             spec_violation(res, "as built, %s" % name)
             continue
-        graphs[name] = (dict(c, Fixed=fixed_built), nodes, edges, init)
-        if name == cfgs[0][0]:
+        consts = dict(c, Fixed=fixed_built)
+        if gi == 0:
             cov = res.coverage()
             expect = {"ExecAny", "FireAny", "ShutdownA", "ShutdownS", "ShutdownE", "Request", "SetMode"}
             expect |= {"ConnFailure"} if "fail" in c["Env"] else set()
             expect |= {"StatusEvent"} if "status" in c["Env"] else set()
+            expect |= {"TopologyEvent"} if "topo" in c["Env"] else set()
             expect |= {"CtlFail"} if "ctl" in c["Env"] else set()
             zero = sorted(a for a in expect if a in cov and cov[a][1] == 0)
             missing = sorted(a for a in expect if a not in cov)
             if zero or missing:
                 raise tlc.MachineryError("actions never taken in the exhaustive model: %s (not reported: %s)" % (zero, missing))
             ctx.note("coverage_actions_taken", sorted(expect))
-    for key, fut in jobs.items():
-        if key[0] == "intended":
-            res = fut.result()
-            ctx.add_tlc(res, "intended %s" % key[1])
-            if res.violation:
-                spec_violation(res, "intended, %s" % key[1])
-    wres = jobs["witness"].result()
-    import re
-    hit = set(re.findall(r"Invariant (\S+) is violated", wres.out))
-    if not set(WITNESSES[pid]) <= hit:
-        raise tlc.MachineryError("vacuity witnesses not reachable: %s\n%s" % (sorted(set(WITNESSES[pid]) - hit), wres.out[-1500:]))
-    ctx.note("vacuity_witnesses_reached", WITNESSES[pid])
-    ctx.note("model", {"fixed_in_as_built_model": sorted(fixed_built), "invariants_checked_as_built": built_inv,
-                       "invariants_checked_intended": ALL_INV})
-
-    timing["waiting_for_tlc_s"] = round(time.time() - t0, 2)
-    t0 = time.time()
-    # ---- 3. spec -> code: replay walks covering the edges of every as-built graph
-    budget = (25.0 if quick else 330.0) / max(1, len(graphs))
-    replayed = steps = 0
-    for name, (consts, nodes, edges, init) in graphs.items():
+        t0 = time.time()
         walks = cover_walks(nodes, edges, init, ctx.rng, extra_random=50 if quick else 300)
         all_edges = set((s, d) for s, d, _ in edges)
         covered = set()
-        t_end = time.time() + budget
+        left = len(cfgs) - gi
+        t_end = time.time() + max(8.0 if quick else 45.0, (deadline - time.time()) / left)
         done = 0
         for w in walks:
             if time.time() > t_end:
@@ -343,19 +331,37 @@ def run(ctx, pid):
                 before = states[div["step"] - 1] if div["step"] > 0 else None
                 if owner_of(div, before) == pid:
                     _viol(ctx, "replay diverges at step %d of a %s walk (%s): %s" % (div["step"], name, _short(div["action"]), div["diff"]),
-                                  replay={"constants": _jc(consts), "actions": acts[:div["step"]], "divergence": div},
-                                  signature=sig_of(div))
+                          replay={"constants": _jc(consts), "actions": acts[:div["step"]], "divergence": div},
+                          signature=sig_of(div))
                 continue
             if bad and pid == "C45":
                 _after_return(ctx, consts, acts, bad, states[-1], present, name)
         ctx.note("graph_%s" % name, {"states": len(nodes), "edges": len(all_edges), "edges_replayed": len(covered & all_edges),
                                      "walks": done, "exhaustive": all_edges <= covered})
         replayed += done
+        timing["replay_s"] = round(timing["replay_s"] + time.time() - t0, 2)
+        del nodes, edges, walks
     ctx.traces_validated += replayed
     ctx.note("behaviours_replayed", replayed)
     ctx.note("steps_replayed", steps)
 
-    timing["replay_s"] = round(time.time() - t0, 2)
+    # ---- 2. the intended model and the vacuity witnesses
+    t0 = time.time()
+    for key, fut in jobs.items():
+        if key[0] == "intended":
+            res = fut.result()
+            ctx.add_tlc(res, "intended %s" % key[1])
+            if res.violation:
+                spec_violation(res, "intended, %s" % key[1])
+    wres = jobs["witness"].result()
+    hit = set(re.findall(r"Invariant (\S+) is violated", wres.out))
+    if not set(WITNESSES[pid]) <= hit:
+        raise tlc.MachineryError("vacuity witnesses not reachable: %s\n%s" % (sorted(set(WITNESSES[pid]) - hit), wres.out[-1500:]))
+    ctx.note("vacuity_witnesses_reached", WITNESSES[pid])
+    ctx.note("model", {"fixed_in_as_built_model": sorted(fixed_built), "invariants_checked_as_built": built_inv,
+                       "invariants_checked_intended": ALL_INV})
+    timing["waiting_for_other_tlc_s"] = round(time.time() - t0, 2)
+
     t0 = time.time()
     # ---- 4b. code -> spec: the recorded runs against Trace_Hosts.tla
     tres, prog = jobs["trace"].result()
